@@ -100,6 +100,7 @@ func writeOK(bg *Writer, c *compressor) bool {
 		return true
 	}
 
+	verifPoint("writer.emit", int64(c.buf.Len()), 0)
 	_, err := io.Copy(bg.w, &c.buf)
 	bg.qwg.Done()
 	if err != nil {
@@ -130,6 +131,7 @@ type compressor struct {
 
 func (c *compressor) writeBlock() {
 	defer func() { c.flush <- c }()
+	verifPoint("writer.compress", int64(c.next), 0)
 
 	if c.gz == nil {
 		c.gz, c.err = gzip.NewWriterLevel(&c.buf, c.level)
